@@ -28,6 +28,32 @@ CHECKS = {
         technique='SMT-based symbolic execution (CrossHair/z3) of evaluate() on parsed templates vs list-model oracle',
         design='DESIGN.md §4 C08'),
 }
+CHECKS.update({
+    'C11': dict(
+        text='The integer calendar kernels (days_from_common_era, months2days, adjust_day, with calendar.isleap/leapdays) are translated '
+             'from the current source into z3 integer terms and proved equal to an independent civil-calendar day-number reference for '
+             'every year in [-2^31, 2^31] (unsat queries, 3-seed z3 portfolio). Constructors, component accessors, 24:00:00 '
+             'normalisation, yearMonthDuration addition with day clamping and fromdelta near the datetime range are executed '
+             'symbolically (CrossHair) and exhausted within stated field ranges. todelta/fromdelta/ordering/difference for far years '
+             'are bug-hunting only (not exhaustible within budget).',
+        note='Trusted: the AST->z3 translator (validated on a concrete grid against the real functions on every run), z3, CrossHair\'s '
+             'pure-Python datetime model. Out: timezones and adjust-*-to-timezone, |year| > 2.7e6 for timeline conversion, fractional '
+             'seconds, XSD 1.0 BCE leap-year numbering.',
+        technique='AST->z3 translation of calendar kernels vs civil-calendar reference (unsat) + CrossHair symbolic execution of the datatype classes',
+        design='DESIGN.md §4 C11'),
+    'C13': dict(
+        text='UnicodeSubset add/discard/|=/-=/&=/^=/complement/iter_code_points/constructor are executed symbolically from an arbitrary '
+             'valid pre-state (<= 3 entries with symbolic bounds over the whole code space) with symbolic operands: membership of a '
+             'symbolic code point equals the mathematical set operation and the representation invariant is re-established (one '
+             'inductive step). The installed category tables are compared with unicodedata.category for every code point and every '
+             'category as QF_BV range-disjunction queries; partition/union laws for every version that ships tables; block '
+             'disjointness for all 32 installable versions.',
+        note='Trusted: CrossHair int/list models, z3. The invariant preserved by add() is the weak one (sorted, non-overlapping); merged '
+             'canonical form after add() is known finding C13-add-unmerged; U+FEFF block overlap in Unicode 2.0-2.1.8 is known finding '
+             'C13-blocks-feff. Out: CharacterClass composition (covered at language level by C12), historical UCD equality.',
+        technique='CrossHair/z3 symbolic execution of one set operation from an arbitrary valid pre-state + z3 QF_BV queries over the category/block tables',
+        design='DESIGN.md §4 C13'),
+})
 NOT_APPLICABLE = {
     'C04': 'Quantifies over program syntax and hash seeds: no value domain to make symbolic; symbolic source text does not get through '
            'the tokenizer regex under CrossHair (600 CPU-s, len<=2, no verdict); a table-level z3 check would verify a model of the '
